@@ -50,6 +50,44 @@ theorem tables_agree_block_end_map (t : RowType) (b : BlockType) :
     blockEndMap t = some b ↔ (t.name, b.name) ∈ Gen.cliBlockEndMap := by
   cases t <;> cases b <;> decide
 
+/-- the site of a fault class in the level table of T1 and the level the model gives it -/
+def levelName (f : Fault) : Str := if f.viaLog then "CRITICAL".toList else "EXCEPTION".toList
+
+/-- **The detection sites that used to be ERROR-level report at the level the model says** (and so stop
+the command): the level of the first record ≥ ERROR that the real compiler emits on a minimal workbook
+per site (regenerated each run by behaviour probes) against `Fault.viaLog`; plus the word lists those
+sites test (index row types, keys of `row_type_to_main_arg`, the dispatch of `_get_row_action`, the
+`set_contact_` properties, the outcome words of `add_exit`), all sets, compared up to order.  Turning one
+of the `LOGGER.critical` calls back into `LOGGER.error` breaks this theorem. -/
+theorem tables_agree_detection :
+    Canon.sameMap Gen.cliDetectLevels
+      [("badOutcomeAirtime".toList, levelName (.badOutcomeCondition false)),
+       ("badOutcomeFlow".toList, levelName (.badOutcomeCondition true)),
+       ("badOutcomeWebhook".toList, levelName (.badOutcomeCondition false)),
+       ("noDefaultExitFromFlow".toList, levelName .noDefaultExitFromFlow),
+       ("rowTypeWithoutMainArg".toList, levelName (.rowTypeWithoutMainArg [])),
+       ("sheetNameCount".toList, levelName (.sheetNameCount [])),
+       ("unknownContactProperty".toList, levelName (.unknownContactProperty [])),
+       ("unknownIndexType".toList, levelName (.unknownIndexType [])),
+       ("unknownRowType".toList, levelName (.unknownRowType []))] ∧
+    Canon.sameSet Gen.indexRowTypes indexRowTypes ∧
+    Canon.sameSet (Gen.flowRowTypeToMainArg.map (·.1)) mainArgTypes ∧
+    Canon.sameSet Gen.cliActionRowTypes actionRowTypes ∧
+    Canon.sameSet Gen.cliNodeRowTypes nodeRowTypes ∧
+    Gen.cliSetContactPrefix = setContactPrefix ∧
+    Canon.sameSet Gen.cliContactProperties contactProperties ∧
+    Canon.sameSet Gen.cliFlowOutcomes flowOutcomes ∧
+    Canon.sameSet Gen.cliHookOutcomes hookOutcomes ∧
+    Canon.sameSet Gen.cliHookNodeClasses ["CallWebhookNode".toList, "TransferAirtimeNode".toList] := by
+  decide
+
+/-- the level does not depend on the value a fault names -/
+theorem new_faults_via_log (t : Str) (b : Bool) :
+    (Fault.unknownIndexType t).viaLog = true ∧ (Fault.sheetNameCount t).viaLog = true ∧
+    (Fault.unknownContactProperty t).viaLog = true ∧ (Fault.unknownRowType t).viaLog = true ∧
+    (Fault.badOutcomeCondition b).viaLog = true ∧ Fault.noDefaultExitFromFlow.viaLog = true ∧
+    (Fault.rowTypeWithoutMainArg t).viaLog = false := ⟨rfl, rfl, rfl, rfl, rfl, rfl, rfl⟩
+
 /-- the exit status of a stopped run is not the success status -/
 theorem shutdown_exit_nonzero : shutdownExit ≠ 0 := by decide
 
@@ -531,6 +569,10 @@ theorem block_fault_never_masked {P : Type} (chk : List Str → P → Except Fau
     simp only [List.map_cons, runBlocks] at h
     unfold runSheet
     simp only [steps, step]
+    cases hk : r.keyError with
+    | some t => exact ⟨_, rfl⟩
+    | none =>
+    simp only []
     cases hc : isEndOfBlock (top (st.map (·.bt))) (some r.type) with
     | error f0 => exact ⟨f0, rfl⟩
     | ok b =>
@@ -599,14 +641,14 @@ is evaluated there and has a failing detector stops the sheet with that detector
 whatever follows. -/
 theorem row_fault_detected {P : Type} (chk : List Str → P → Except Fault Unit)
     (pre post : List (Row P)) (r : Row P) (s0 s : List Frame × List Str) (f : Fault)
-    (hpre : steps chk s0 pre = .ok s)
+    (hpre : steps chk s0 pre = .ok s) (hparsed : r.keyError = none)
     (hnotend : isEndOfBlock (top (s.1.map (·.bt))) (some r.type) = .ok false)
     (heval : topOmit s.1 = false ∧ r.includeIf = true)
     (hfault : runProbes chk s.2 r.probes = .error f) :
     runSheet chk s0.1 s0.2 (pre ++ r :: post) = .error f := by
   unfold runSheet
   rw [steps_append, hpre]
-  simp [steps, step, hnotend, heval.1, heval.2, hfault]
+  simp [steps, step, hparsed, hnotend, heval.1, heval.2, hfault]
 
 example : runSheet Probe0.check [] []
     ([{ type := .other, rowId := "a".toList }, { type := .beginFor, probes := [.loopVariable ["i".toList]] }] ++
@@ -706,6 +748,155 @@ theorem edge_from_unknown_row_detected (known : List Str) (src : Str)
     checkEdgeFrom known src = .error (.edgeFromUnknownRow src) := by
   unfold checkEdgeFrom
   rw [if_neg (by rintro (h | h); exact h1 h; exact h2 h), if_neg h3]
+
+/-! ### the detection sites of the former finding F-C15-a (now `LOGGER.critical`) -/
+
+/-- generic: the index is checked row by row, the first failing row decides -/
+theorem checkIndex_error_at (sheets models : List Str) (m : Bool) (pre post : List IndexRow)
+    (r : IndexRow) (e : Fault) (hpre : ∀ x ∈ pre, x.check sheets m models = .ok ())
+    (hr : r.check sheets m models = .error e) :
+    checkIndex sheets m models (pre ++ r :: post) = .error e := by
+  induction pre with
+  | nil => simp [checkIndex, hr]
+  | cons x pre ih =>
+    have hx := hpre x (by simp)
+    simpa [checkIndex, hx] using ih (fun y hy => hpre y (by simp [hy]))
+
+/-- **Index row of unknown type**: wherever it sits among valid rows, whatever sheet it names
+(no sheet is looked up), the run stops with "invalid type". -/
+theorem unknown_index_type_detected (sheets models : List Str) (m : Bool) (pre post : List IndexRow)
+    (t : Str) (hpre : ∀ x ∈ pre, x.check sheets m models = .ok ()) (ht : t ∉ indexRowTypes) :
+    checkIndex sheets m models (pre ++ .other t 1 :: post) = .error (.unknownIndexType t) :=
+  checkIndex_error_at sheets models m pre post _ _ hpre (by simp [IndexRow.check, ht])
+
+example : "create_flows".toList ∉ indexRowTypes ∧
+    checkIndex ["main".toList] false [] ([.sheetRef "main".toList] ++ .other "create_flows".toList 1 :: []) =
+      .error (.unknownIndexType "create_flows".toList) := by decide
+
+/-- needs `t ∉ indexRowTypes`: a row of a known type without effect on the model (`ignore_row`) passes -/
+theorem unknown_index_type_needs_unknown :
+    (IndexRow.other "ignore_row".toList 1).check [] false [] = .ok () := by decide
+
+/-- … and the `sheet_name` count comes first, whatever the type is -/
+theorem sheet_name_count_first (sheets models : List Str) (m : Bool) (t : Str) (n : Nat) (hn : n ≠ 1) :
+    (IndexRow.other t n).check sheets m models = .error (.sheetNameCount t) := by
+  simp [IndexRow.check, hn]
+
+/-- … and therefore the command exits non-zero and leaves the output path alone -/
+theorem unknown_index_type_stops_command {D : Type} (doc : Workbook → D) (encode : D → Str)
+    (w : Workbook) (pre post : List IndexRow) (t : Str) (prev : Option Str)
+    (hidx : w.hasIndex = true) (hindex : w.index = pre ++ .other t 1 :: post)
+    (hpre : ∀ x ∈ pre, x.check w.sheets w.hasModule w.models = .ok ()) (ht : t ∉ indexRowTypes) :
+    createFlows doc w = .error (.unknownIndexType t) ∧
+    cliFs (createFlows doc) encode prev w = ⟨1, prev⟩ := by
+  have h : createFlows doc w = .error (.unknownIndexType t) := by
+    unfold createFlows
+    simp [hidx, hindex, unknown_index_type_detected w.sheets w.models w.hasModule pre post t hpre ht]
+  exact ⟨h, cli_error_keeps_file _ _ _ _ _ h⟩
+
+/-- **Outcome edges**: an edge leaving a start_new_flow row must say Complete(d) / Expired … -/
+theorem bad_flow_outcome_detected (v : Str) (more : Bool) (hne : v ≠ [] ∨ more = true)
+    (hv : lowerAscii v ∉ flowOutcomes) :
+    checkOutcome .enterFlow v more = .error (.badOutcomeCondition true) := by
+  have : ¬ (v = [] ∧ more = false) := by
+    rintro ⟨h1, h2⟩; rcases hne with h | h
+    · exact h h1
+    · rw [h2] at h; cases h
+  simp [checkOutcome, this, hv]
+
+/-- … one leaving a call_webhook / transfer_airtime row Success / Failure (or nothing at all) -/
+theorem bad_hook_outcome_detected (v : Str) (more : Bool) (hne : v ≠ [] ∨ more = true)
+    (hv : lowerAscii v ∉ hookOutcomes) :
+    checkOutcome .hook v more = .error (.badOutcomeCondition false) := by
+  have : ¬ (v = [] ∧ more = false) := by
+    rintro ⟨h1, h2⟩; rcases hne with h | h
+    · exact h h1
+    · rw [h2] at h; cases h
+  simp [checkOutcome, this, hv]
+
+example : lowerAscii "Maybe".toList ∉ flowOutcomes ∧ lowerAscii "Sucess".toList ∉ hookOutcomes ∧
+    checkOutcome .enterFlow "Maybe".toList false = .error (.badOutcomeCondition true) ∧
+    checkOutcome .hook [] true = .error (.badOutcomeCondition false) := by decide
+
+/-- the outcome words are accepted in any ASCII capitalisation; an edge from any other row is not tested -/
+theorem outcome_words_accepted :
+    checkOutcome .enterFlow "Completed".toList false = .ok () ∧
+    checkOutcome .enterFlow "EXPIRED".toList true = .ok () ∧
+    checkOutcome .hook "Success".toList false = .ok () ∧ checkOutcome .hook "failure".toList false = .ok () ∧
+    (∀ v m, checkOutcome .other v m = .ok ()) := by
+  refine ⟨by decide, by decide, by decide, by decide, fun _ _ => rfl⟩
+
+/-- needs `v ≠ [] ∨ more`: the unconditional edge takes the default-exit branch — an error of its own
+for a start_new_flow row, fine for a webhook -/
+theorem bad_outcome_needs_condition :
+    checkOutcome .enterFlow [] false = .error .noDefaultExitFromFlow ∧ checkOutcome .hook [] false = .ok () := by
+  decide
+
+/-- **Row type**: outside the three lists `_get_row_action` knows, "not implemented" … -/
+theorem unknown_row_type_detected (t : Str) (h1 : t ∉ actionRowTypes)
+    (h2 : setContactPrefix.isPrefixOf t = false) (h3 : t ∉ nodeRowTypes) :
+    checkRowType t = .error (.unknownRowType t) := by
+  simp [checkRowType, h1, h2, h3]
+
+/-- … and a `set_contact_` row whose property is not one of the five: "Unknown operation" -/
+theorem unknown_contact_property_detected (t : Str) (h1 : t ∉ actionRowTypes)
+    (h2 : setContactPrefix.isPrefixOf t = true) (h3 : removeAll setContactPrefix t ∉ contactProperties) :
+    checkRowType t = .error (.unknownContactProperty (removeAll setContactPrefix t)) := by
+  simp [checkRowType, h1, h2, h3]
+
+example : checkRowType "send_mesage".toList = .error (.unknownRowType "send_mesage".toList) ∧
+    checkRowType "set_contact_email".toList = .error (.unknownContactProperty "email".toList) ∧
+    checkRowType "set_contact_name".toList = .ok () ∧
+    -- `replace` removes every occurrence of the prefix (what the code does)
+    checkRowType "set_contact_set_contact_name".toList = .ok () := by decide
+
+/-- **"Not implemented" is out of reach in a sheet with a `message_text` column**: every type the row
+parser lets through there (`mainArgKeyError true t = none`) is either handled before
+`_get_row_action` (block rows, exits, go_to, no_op, insert_as_block) or known to it. -/
+theorem main_arg_types_known (t : Str) (h : mainArgKeyError true t = none) :
+    t ∈ ["begin_block".toList, "begin_for".toList, "end_block".toList, "end_for".toList, "go_to".toList,
+         "hard_exit".toList, "insert_as_block".toList, "loose_exit".toList, "no_op".toList] ∨
+    checkRowType t = .ok () := by
+  have all : ∀ t ∈ mainArgTypes,
+      t ∈ ["begin_block".toList, "begin_for".toList, "end_block".toList, "end_for".toList, "go_to".toList,
+           "hard_exit".toList, "insert_as_block".toList, "loose_exit".toList, "no_op".toList] ∨
+      checkRowType t = .ok () := by decide
+  by_cases hm : t ∈ mainArgTypes
+  · exact all t hm
+  · simp [mainArgKeyError, hm] at h
+
+/-- with a `message_text` column an unknown type is a `KeyError` of the row parser instead … -/
+theorem mainArgKeyError_iff (b : Bool) (t : Str) :
+    mainArgKeyError b t = some t ↔ (b = true ∧ t ∉ mainArgTypes) := by
+  unfold mainArgKeyError
+  by_cases hb : b = true <;> by_cases ht : t ∈ mainArgTypes <;> simp [hb, ht]
+
+/-- … which stops the sheet at that row **whatever state the machine is in**: inside an omitted
+block, with a false `include_if`, even where the row would have terminated a block. -/
+theorem row_type_key_error_detected {P : Type} (chk : List Str → P → Except Fault Unit)
+    (pre post : List (Row P)) (r : Row P) (s0 s : List Frame × List Str) (t : Str)
+    (hpre : steps chk s0 pre = .ok s) (hr : r.keyError = some t) :
+    runSheet chk s0.1 s0.2 (pre ++ r :: post) = .error (.rowTypeWithoutMainArg t) := by
+  unfold runSheet
+  rw [steps_append, hpre]
+  simp [steps, step, hr]
+
+example : runSheet Probe0.check [] []
+    ([{ type := .other, rowId := "a".toList }, { type := .beginBlock, includeIf := false }] ++
+      ({ type := .other, includeIf := false, keyError := mainArgKeyError true "send_mesage".toList } : Row Probe0) ::
+        [{ type := .endBlock }]) = .error (.rowTypeWithoutMainArg "send_mesage".toList) := by decide
+
+/-- the new row-level detectors inside a sheet, through `row_fault_detected` (any position, any depth):
+the row type is looked at before the edges, the outcome after the source of the edge was found -/
+example : runSheet Probe0.check [] []
+    ([{ type := .other, rowId := "a".toList, probes := [.rowType "start_new_flow".toList, .edgeFrom "start".toList] },
+      { type := .beginBlock, probes := [.edgeFrom "a".toList] }] ++
+      ({ type := .other, probes := [.rowType "send_message".toList, .messageText "x".toList, .edgeFrom "a".toList,
+                                   .outcome .enterFlow "maybe".toList false] } : Row Probe0) :: [{ type := .endBlock }]) =
+    .error (.badOutcomeCondition true) ∧
+  runSheet Probe0.check [] []
+    [({ type := .other, probes := [.rowType "frobnicate".toList, .edgeFrom "nosuchrow".toList] } : Row Probe0)] =
+    .error (.unknownRowType "frobnicate".toList) := by decide
 
 /-! ### template arguments -/
 
